@@ -145,6 +145,18 @@ Theorem C15_dialect_priority_refuted :
 Proof. destruct dialect_witness as [He [Hl [Hm Hc]]]. split; [exact He|split; [exact Hl|]]. rewrite Hm, Hc. discriminate. Qed.
 Print Assumptions C15_dialect_priority_refuted.
 
+(* member order of a union is observable on the codec path, for decoding and for encoding: two shape types
+   that differ only in the order of their members are different codecs (one-shot functions may not share them) *)
+Theorem C15_union_order_observable :
+  run_unpack E_tw Codec (TUnion [TData "A"; TData "B"]) (VDict [("ref", VStr "42")])
+  <> run_unpack E_tw Codec (TUnion [TData "B"; TData "A"]) (VDict [("ref", VStr "42")]) /\
+  run_pack E_look Codec None (TUnion [TData "K1"; TData "K0"]) v_look
+  <> run_pack E_look Codec None (TUnion [TData "K0"; TData "K1"]) v_look.
+Proof.
+  destruct union_order_witness as [H1 [H2 [H3 H4]]]. split; [rewrite H1, H2|rewrite H3, H4]; discriminate.
+Qed.
+Print Assumptions C15_union_order_observable.
+
 (* --- non-vacuity: the hypotheses of the agreement theorem are met by a non-trivial instance
    (inheritance, alias, Optional, list, a union of two distinguishable dataclasses) ---------- *)
 Definition E_ex : env :=
